@@ -367,6 +367,17 @@ func evalC16(op string, args []string) string {
 	}
 	o := newDpOpener()
 	p := dictionary.Parser{Opener: o, IgnoreIdenticalAttributes: args[1] == "1"}
+	// history: the same Parser value has parsed other texts before (one accepted, one refused, and — for
+	// every second case — this very text); a Parser carries configuration only
+	func() {
+		defer func() { recover() }()
+		p.Parse(o.handle("prior1", []byte("ATTRIBUTE Prior-A 1 string\nATTRIBUTE Prior-B 2 octets[4] encrypt=1\nATTRIBUTE Prior-C 3 integer has_tag\nVALUE Prior-C One 1\nVENDOR PriorV 77 format=2,1\nBEGIN-VENDOR PriorV\nATTRIBUTE Prior-D 1 ipaddr\nEND-VENDOR PriorV\n")))
+		p.Parse(o.handle("prior2", []byte("VENDOR PriorW 78\nBEGIN-VENDOR PriorW\nATTRIBUTE Prior-E 1 date\nATTRIBUTE Prior-E 2 date\n")))
+		if len(text)%2 == 0 {
+			p.Parse(o.handle("root", text))
+		}
+	}()
+	o.events = nil
 	d, err := p.Parse(o.handle("root", text))
 	if err != nil {
 		f := dpClassify(err)
